@@ -42,6 +42,18 @@ CHECKS = {
              "(integrator schema is C06). Outside: first-order realisation of (da, di, dOmega) beyond the tangential identity; "
              "off-grid continuous-burn quadrature.",
         ref="DESIGN.md section 3 C17", technique=TECH),
+    "C11": dict(
+        text="create_station, _geodetic_to_cartesian, TopocentricOrientation, Center/Orientation.convert_to, Frame.transform, the "
+             "spherical form and the Range/Azimut/Elevation/Doppler measures are executed symbolically end to end: proved for every "
+             "latitude in (-90,90), longitude, altitude, ellipsoid (a, 0<e<1) and every Earth-fixed target state that the station lies "
+             "on the ellipsoid at the given height along the outward normal and is at rest, its axes are north/west/up, and range, "
+             "azimuth (= -theta), elevation and range-rate equal an independently written WGS-84 ENU computation (two-way range "
+             "counted per leg). get_mask equals the piecewise-linear wrap-around interpolant for every table of bounded length "
+             "(strictly increasing azimuths ending at 2 pi) and every real azimuth, all loop paths explored.",
+        note="Trusted: z3; ENU/ellipsoid reference in the harness; exact cofactor inverse standing in for np.linalg.inv. Earth.r/Earth.e "
+             "replaced by symbols. Bounded: mask tables of <= 3 (quick) / 5 (thorough) entries. Outside: motion with the Earth's "
+             "rotation in inertial frames (rotation providers are C02).",
+        ref="DESIGN.md section 3 C11", technique=TECH),
     "C16": dict(
         text="Every formula of ClohessyWiltshire._propagate/propagate and of the CWHelper maneuvers is executed symbolically "
              "(exact reals, cos/sin as a point on the unit circle) and the solver proves, for all n>0, all times, all initial "
